@@ -40,7 +40,7 @@ fn env_seed() -> u64 {
     std::env::var("VERIF_SEED").ok().and_then(|s| s.trim().parse::<u64>().ok()).unwrap_or(1)
 }
 
-const ALL_STRATA: &str = "crash,preempt,siblings,duel,long,gen,random";
+const ALL_STRATA: &str = "gen,crash,preempt,siblings,duel,long,random";
 
 /// Commands that execute the code under test (through the fork server).
 const SIM_CMDS: [&str; 7] = ["child", "solo-slice", "mkreplay", "replay-inner", "solo", "forkbench", "hashes"];
@@ -122,6 +122,7 @@ fn main() {
                 audit_every: arg(&args, "--audit-every").and_then(|s| s.parse().ok()).unwrap_or(100),
                 write_evidence: !flag(&args, "--no-evidence"),
                 run_timeout_s: arg(&args, "--run-timeout").and_then(|s| s.parse().ok()).unwrap_or(60),
+                first_only: flag(&args, "--first-only"),
             })
         }
         "child" => {
